@@ -585,6 +585,11 @@ func RunReg(p *plan.Plan) *plan.Result {
 		beginOp(soloOpCap)
 		want, crArgs := cleanRoom(def, &a)
 		n0 := opSteps()
+		if want.Deadlock {
+			addViol(plan.Violation{Property: "C06", Class: "C06/history-dependence/" + step.Op, Key: "lock-left-held", Step: si,
+				Detail: fmt.Sprintf("step %d %s: a clean-room call waits for a lock that an earlier operation left held (or that it takes twice): it never returns", si, step.Op)})
+			break
+		}
 		if want.Hang {
 			st["skipped_budget"]++
 			continue
